@@ -32,7 +32,7 @@ KMAX = 1e8
 
 def floors(tier):
     return {"gcp_judged": 3000, "outward_on_bound": 800, "breakpoints_crossed_inputs": 800, "c_checked": 1500,
-            "intercepted_calls": 200, "tie_inputs": 600, "inputs_with_theta_exactly_one": 40, "inputs_with_empty_memory_and_theta_not_one": 100, "runs_with_objective_redefined": 40, "__nontrivial__": 200}
+            "intercepted_calls": 200, "tie_inputs": 600, "inputs_with_theta_exactly_one": 40, "inputs_with_empty_memory_and_theta_not_one": 100, "grazing_inputs": 10000, "grazing_inputs_after_crossed_breakpoints": 5000, "runs_with_objective_redefined": 40, "__nontrivial__": 200}
 
 
 def exhaustive(tier):
@@ -83,6 +83,32 @@ def judge_gcp(out, x, g, lb, ub, mats, B, xcp, c, where, tags):
         if not np.array_equal(xcp[outward], x[outward]):
             out.violate("outward_variable_moved", f"{where}: variable on a bound with outward gradient moved: x={x.tolist()} x_cp={xcp.tolist()}", **tags)
             return True
+    if ref["knife"]:
+        # the segment minimiser coincides with a breakpoint to 1e-9: whether the search stops just before it or fixes the variable and
+        # goes on is decided by rounding, and the two outcomes are different points. Judged: feasibility (above, exact), membership
+        # of the projected path, and no increase of the model
+        out.count("stop_or_continue_decision_at_threshold")
+        tt = []
+        for i in range(n):
+            inside = lb[i] < xcp[i] < ub[i]
+            if g[i] != 0 and inside:
+                tt.append((x[i] - xcp[i]) / g[i])
+            elif g[i] == 0 and xcp[i] != x[i]:
+                out.violate("gcp_off_the_projected_path", f"{where}: variable {i} has zero gradient but moved", **tags)
+                return True
+        if tt and not (max(tt) - min(tt) <= 1e-9 * max(abs(max(tt)), 1e-300) + 64 * EPS * max(1.0, float(np.max(np.abs(x)))) / max(float(np.min(np.abs(g[g != 0]))), 1e-300)):
+            out.violate("gcp_off_the_projected_path", f"{where}: the free variables of x_cp correspond to different path parameters t in [{min(tt)!r}, {max(tt)!r}]", **tags)
+            return True
+        tpar = max(tt) if tt else np.inf
+        for i in range(n):
+            on = (xcp[i] == lb[i] and g[i] > 0) or (xcp[i] == ub[i] and g[i] < 0)
+            if on and np.isfinite(t[i]) and t[i] > 0 and tt and not (t[i] <= tpar * (1 + 1e-8)):
+                out.violate("gcp_off_the_projected_path", f"{where}: variable {i} sits on its bound although the path reaches it at t={t[i]!r} > {tpar!r}", **tags)
+                return True
+        mv = model_value(B, g, x, xcp)
+        if not (mv <= model_tol(B, g, x, xcp, rel=1e-12)):
+            out.violate("model_increase", f"{where}: m(x_cp)-m(x)={mv:.3e} > 0", **tags)
+        return True
     scale0 = max(1.0, float(np.max(np.abs(x))))
     cancel_regime = 64 * ref["cancellation"] > PT_TOL * scale0
     if cancel_regime:
@@ -257,6 +283,8 @@ def cases(tier, seed):
     nt = 150 if tier == "quick" else 5000
     for i in range(nt):
         yield {"kind": "ties", "seed": subseed("C08t", seed, i) % (2**31), "count": 20}
+    for i in range(400 if tier == "quick" else 12000):
+        yield {"kind": "graze", "seed": subseed("C08g", seed, i) % (2**31), "count": 20}
     nruns = 150 if tier == "quick" else 4000
     rng = np.random.default_rng(subseed("C08runs", seed))
     fams = ("qp", "qp_quartic", "qp_softplus", "rosenbrock", "styblinski_tang", "rastrigin")
@@ -388,6 +416,70 @@ def run(spec):
                 out.count("random_inputs")
                 one_input(out, x, g, lb, ub, mats, B, f"random n={n} pairs={npairs}", dict(source="random"), keys)
                 last = dict(n=n, pairs=npairs, x=x, g=g, lb=lb, ub=ub)
+                if out.violations:
+                    break
+            out.sample = dict(spec=spec, last_input=last)
+        elif spec["kind"] == "graze":
+            # the minimiser of the first segment falls within a few ulp of the next breakpoint: the final move x + t*d of the
+            # variable that is about to reach its bound lands on, just inside or just beyond the bound
+            rng = np.random.default_rng(spec["seed"])
+            last = None
+            for j in range(spec["count"]):
+                n = int(rng.integers(1, 9))
+                npairs = int(rng.integers(0, 5))
+                mm = make_memory(rng, n, npairs, convex=True)
+                if mm is None:
+                    out.count("skipped_memory_inconsistent")
+                    continue
+                mats, B = mm
+                x = rng.standard_normal(n) * float(np.exp(rng.uniform(-1, 2)))
+                g = rng.standard_normal(n) * float(np.exp(rng.uniform(-1, 2)))
+                gBg = float(g @ (B @ g))
+                if not (gBg > 0) or not np.all(g != 0):
+                    continue
+                lb = np.full(n, -np.inf)
+                ub = np.full(n, np.inf)
+                # breakpoints are added one at a time: the earlier ones well inside the path (they are crossed), the last one at the
+                # minimiser of the segment it ends, give or take a few ulp (after crossed breakpoints the path parameter is an
+                # accumulated sum, so that x + t*d may overshoot the grazed bound)
+                order = rng.permutation(n)[: int(rng.integers(1, min(n, 4) + 1))]
+                ok = True
+                for q, i in enumerate(order):
+                    try:
+                        tstar = ref_gcp(x, g, lb, ub, B)["tstar"]
+                    except RuntimeError:
+                        ok = False
+                        break
+                    if not (tstar > 0 and np.isfinite(tstar)):
+                        ok = False
+                        break
+                    lastone = q == len(order) - 1
+                    if lastone:
+                        break
+                    bnd = x[i] - g[i] * tstar * float(rng.uniform(0.2, 0.8))
+                    if g[i] > 0:
+                        lb[i] = bnd
+                    else:
+                        ub[i] = bnd
+                if not ok or not probes.in_box(x, lb, ub):
+                    continue
+                i = order[-1]
+                for k in (-2, -1, 0, 1, 2):
+                    lbk, ubk = lb.copy(), ub.copy()
+                    bnd = x[i] - g[i] * (tstar * (1.0 + k * EPS))
+                    if g[i] > 0:
+                        lbk[i] = bnd
+                    else:
+                        ubk[i] = bnd
+                    if not probes.in_box(x, lbk, ubk):
+                        continue
+                    if len(order) >= 2:
+                        out.count("grazing_inputs_after_crossed_breakpoints")
+                    out.count("grazing_inputs")
+                    one_input(out, x, g, lbk, ubk, mats, B, f"graze n={n} pairs={npairs} k={k}", dict(source="graze"), keys)
+                    last = dict(n=n, pairs=npairs, x=x, g=g, lb=lbk, ub=ubk)
+                    if out.violations:
+                        break
                 if out.violations:
                     break
             out.sample = dict(spec=spec, last_input=last)
